@@ -178,9 +178,7 @@ def run(ctx):
         ctx.case((which, ik, sk, sl, vclass), sample=w if i % 150 == 0 else None)
     seen = {k for k in ctx.classes if k.startswith('siglen-ecdsa256-')}
     ctx.extra['ecdsa256_der_lengths_seen'] = sorted(int(k.rsplit('-', 1)[1]) for k in seen)
-    if len(seen) < 2:
-        ctx.inconclusive('fewer than two distinct ECDSA P-256 DER signature lengths observed')
-    if not ctx.events.get('cert-checked'):
-        ctx.inconclusive('no certificate was checked')
+    ctx.need_class_prefix('siglen-ecdsa256-', 2)
+    ctx.need_event('cert-checked')
     ctx.assumptions = ['self_sign/sign_req read the real clock (datetime.now is not patchable): their instants are checked within 5 s',
                        'non-UTC aware datetimes and years < 1000 are outside the generated domain']
